@@ -96,7 +96,11 @@ CondPairs(n) == LET S == {pq \in (1..n) \X (1..n) : pq[1] < pq[2]} IN
                 SetToSortSeq(S, LAMBDA p, q : p[1] < q[1] \/ (p[1] = q[1] /\ p[2] < q[2]))
 Members(i, k) == {o \in ObsOf(i) : i.lab[o] = k}
 CV(i) == i.usefold \/ i.m \in {"crossnobis", "poisson_cv"}
-FoldOf(i, o) == IF i.usefold THEN i.fold[o] ELSE o
+\* folds: the fold descriptor if given; else (documented fallback "cv_descriptor not set, using index") an obs
+\* descriptor NAMED 'index' the dataset already carries (with descriptor=None it is renumbered 0..n-1 first);
+\* else every observation is its own fold
+FoldOf(i, o) == IF i.usefold THEN i.fold[o]
+                ELSE IF ~i.nodesc /\ i.ival # <<>> THEN i.ival[o] ELSE o
 Kind(i) == CASE i.m = "euclidean" -> "dot"
              [] i.m = "correlation" -> "corr"
              [] i.m \in {"mahalanobis", "crossnobis"} -> (IF i.prec = <<>> THEN "dot" ELSE "quad")
@@ -184,6 +188,11 @@ DesignOk(i) == CASE Design = "single" -> SingleObs(i)
                  [] Design = "foldbal" -> FoldBalanced(i)
                  [] OTHER -> TRUE
 
+\* the values of an existing 'index' obs descriptor: unique but permuted, or repeated (trial counter, merged sessions)
+IdxSeq(kind, n) == CASE kind = "none" -> <<>>
+                     [] kind = "perm" -> [o \in 1..n |-> IF n % 3 # 0 THEN (3 * (o - 1) + 1) % n ELSE n - o]
+                     [] kind = "rep"  -> [o \in 1..n |-> (o - 1) % ((n + 1) \div 2)]
+
 (* ---------------- behaviour ----------------------------------------------- *)
 DataSet == IF DataSrc = "grid" THEN [1..NObs -> [1..NCh -> Vals]]
            ELSE {[o \in 1..NObs |-> [c \in 1..NCh |-> DataCat[d][o][c]]] : d \in DataIds}
@@ -197,7 +206,7 @@ Init ==
      \E fold \in (IF fm = "given" THEN [1..NObs -> 1..NFold] ELSE {<<>>}) :
      \E x \in DataSet, valid \in ValidSets, nd \in NoDescs, ik \in IdxKinds, pr \in Priors :
         /\ PrecOk(m, pid)
-        /\ inp = [dlab |-> dlab, nodesc |-> nd, idx |-> ik, prior |-> pr,
+        /\ inp = [dlab |-> dlab, nodesc |-> nd, idx |-> ik, ival |-> IdxSeq(ik, NObs), prior |-> pr,
                   lab |-> IF nd THEN [o \in 1..NObs |-> o] ELSE dlab, fold |-> fold, usefold |-> (fm = "given"), x |-> x, valid |-> valid, m |-> m, w |-> w,
                   prec |-> IF pid = 0 THEN <<>> ELSE [c \in 1..NCh |-> [d \in 1..NCh |-> PrecCat[pid][c][d]]]]
         /\ Adm(inp) /\ DesignOk(inp)
@@ -238,7 +247,7 @@ DatasetFrame == [][inp' = inp]_vars
 NoDescIsSingle == (Done /\ inp.nodesc) =>
   /\ SingleObs(inp) /\ out.conds = [o \in ObsOf(inp) |-> o]
   /\ \A ik \in {"none", "perm", "rep"} : \A dl \in {inp.dlab, [o \in ObsOf(inp) |-> 1]} :
-        Result([inp EXCEPT !.idx = ik, !.dlab = dl, !.prior = FALSE]) = out
+        Result([inp EXCEPT !.idx = ik, !.ival = IdxSeq(ik, Len(inp.lab)), !.dlab = dl, !.prior = FALSE]) = out
 \* labels: every label once, in order of first appearance
 CondOrder == Done =>
   LET c == out.conds IN
@@ -335,7 +344,8 @@ WeightingIrrelevantWhenComplete == (Done /\ Exact(inp) /\ Complete(inp)) =>
 Rev(s) == [j \in 1..Len(s) |-> s[Len(s) + 1 - j]]
 ReverseInvariant == (Done /\ Exact(inp)) =>
   LET j == [inp EXCEPT !.lab = Rev(inp.lab), !.x = Rev(inp.x), !.valid = Rev(inp.valid),
-                       !.fold = IF inp.fold = <<>> THEN <<>> ELSE Rev(inp.fold)]
+                       !.fold = IF inp.fold = <<>> THEN <<>> ELSE Rev(inp.fold),
+                       !.ival = IF inp.ival = <<>> THEN <<>> ELSE Rev(inp.ival)]
       rj == Result(j)  cj == CondPairs(Len(rj.conds)) IN
   \A p \in DOMAIN out.rdm : \E q \in DOMAIN rj.rdm :
      /\ {rj.conds[cj[q][1]], rj.conds[cj[q][2]]} = {PairLab(inp, p)[1], PairLab(inp, p)[2]}
@@ -344,7 +354,7 @@ ReverseInvariant == (Done /\ Exact(inp)) =>
 (* ---------------- emission ------------------------------------------------- *)
 Pick(n) == n = 1 \/ RandomElement(1..n) = 1
 Emit == (Done /\ Pick(EmitMod)) =>
-  PrintT(ToJson([dlab |-> inp.dlab, nodesc |-> inp.nodesc, idx |-> inp.idx, prior |-> inp.prior,
+  PrintT(ToJson([dlab |-> inp.dlab, nodesc |-> inp.nodesc, idx |-> inp.idx, ival |-> inp.ival, prior |-> inp.prior,
                  lab |-> inp.lab, fold |-> inp.fold, usefold |-> inp.usefold, x |-> inp.x,
                  valid |-> [o \in ObsOf(inp) |-> Sorted(inp.valid[o])], m |-> inp.m, w |-> inp.w, prec |-> inp.prec,
                  out |-> out]))
